@@ -5,6 +5,8 @@ ID = "C15"
 LEAN_PROPS = ["FcpptProofs.Props.C15"]
 HARNESS = {"src": "harness/c15.cpp", "repo_srcs": [
     "libs/core/src/endianness/reverse_mem.cpp", "libs/core/src/insert_extract_locale.cpp",
+    "libs/core/src/narrow_locale.cpp", "libs/core/src/widen_locale.cpp", "libs/core/src/from_std_wstring_locale.cpp",
+    "libs/core/src/to_std_wstring_locale.cpp", "libs/core/src/from_std_string_locale.cpp", "libs/core/src/to_std_string_locale.cpp",
 ]}
 TIE = "hand-written model (FcpptModel/Model/C15/*.lean) + differential correspondence against the real templates and .cpp files"
 RULE = ""
@@ -114,6 +116,160 @@ def num_texts(r, ty, count):
     return out
 
 
+# ---------------------------------------------------------------- UTF-8 (glibc's 31-bit flavour): an oracle of our own
+def enc31(c):
+    """bytes of one code point the way glibc's UTF-8 converter writes them, None if it refuses"""
+    if c > 0x7FFFFFFF or 0xD800 <= c <= 0xDFFF:
+        return None
+    if c < 0x80:
+        return [c]
+    for n, lim, lead in ((2, 0x800, 0xC0), (3, 0x10000, 0xE0), (4, 0x200000, 0xF0), (5, 0x4000000, 0xF8), (6, 0x80000000, 0xFC)):
+        if c < lim:
+            return [lead + (c >> (6 * (n - 1)))] + [0x80 + ((c >> (6 * k)) & 0x3F) for k in range(n - 2, -1, -1)]
+
+
+def dec31(bs):
+    """strict decoding of a whole byte string: list of code points, or None if it is not a sequence of well-formed
+    characters (overlong, surrogate, stray/missing continuation bytes, truncated)"""
+    out, i = [], 0
+    while i < len(bs):
+        b = bs[i]
+        if b < 0x80:
+            out.append(b); i += 1; continue
+        n = 2 if 0xC2 <= b < 0xE0 else 3 if 0xE0 <= b < 0xF0 else 4 if 0xF0 <= b < 0xF8 else 5 if 0xF8 <= b < 0xFC else 6 if 0xFC <= b < 0xFE else 0
+        if n == 0 or i + n > len(bs):
+            return None
+        c = b & (0xFF >> (n + 1))
+        for k in range(1, n):
+            if bs[i + k] & 0xC0 != 0x80:
+                return None
+            c = (c << 6) | (bs[i + k] & 0x3F)
+        if enc31(c) is None or len(enc31(c)) != n:
+            return None
+        out.append(c); i += n
+    return out
+
+
+def whx(cs):
+    return "".join("%08x" % c for c in cs) if cs else "-"
+
+
+SCALAR_EDGES = [1, 0x7F, 0x80, 0x7FF, 0x800, 0xFFF, 0x1000, 0xD7FF, 0xE000, 0xFFFD, 0xFFFF, 0x10000, 0x1FFFF, 0xFFFFF, 0x100000, 0x10FFFF]
+BAD_WC = [0xD800, 0xDBFF, 0xDC00, 0xDFFF, 0x80000000, 0xFFFFFFFF, 0x80000001]
+WIDE_WC = [0x110000, 0x1FFFFF, 0x200000, 0x3FFFFFF, 0x4000000, 0x7FFFFFFF]   # glibc accepts these (31-bit UTF-8)
+
+
+def rand_scalar(r):
+    k = r.below(6)
+    if k == 0:
+        return r.range(1, 0x7F)
+    if k == 1:
+        return r.range(0x80, 0x7FF)
+    if k == 2:
+        c = r.range(0x800, 0xFFFF)
+        return c if not 0xD800 <= c <= 0xDFFF else 0xE000 + (c & 0xFF)
+    if k == 3:
+        return r.range(0x10000, 0x10FFFF)
+    return r.choice(SCALAR_EDGES)
+
+
+def rand_string(r, maxlen=40):
+    n = r.range(1, maxlen)
+    shape = r.below(7)
+    if shape == 0:
+        return [r.range(1, 0x7F) for _ in range(n)]
+    if shape == 1:
+        return [r.range(0x10000, 0x10FFFF) for _ in range(n)]
+    if shape == 2:   # ASCII, then wide characters: the buffer is exhausted in the middle of the string
+        k = r.below(n + 1)
+        return [r.range(1, 0x7F) for _ in range(k)] + [r.choice([0xE4, 0x20AC, 0x1F600, 0x10FFFF]) for _ in range(n - k)]
+    if shape == 3:
+        return [r.choice([0xE4, 0x7FF, 0x80]) for _ in range(n)]
+    if shape == 4:
+        return [r.choice([0x20AC, 0x800, 0xFFFF]) for _ in range(n)]
+    return [rand_scalar(r) for _ in range(n)]
+
+
+def malformed_bytes(r):
+    """byte strings around the borders of well-formedness"""
+    good = [b for c in rand_string(r, 8) for b in enc31(c)]
+    k = r.below(14)
+    if k == 0:    # truncated: ends inside a character
+        tail = enc31(r.choice([0xE4, 0x20AC, 0x1F600, 0x10FFFF, 0x7FF, 0x800]))
+        return good + tail[:r.range(1, len(tail) - 1)]
+    if k == 1:    # overlong forms
+        return good + r.choice([[0xC0, 0x80], [0xC1, 0xBF], [0xE0, 0x80, 0x80], [0xE0, 0x9F, 0xBF], [0xF0, 0x80, 0x80, 0x80], [0xF0, 0x8F, 0xBF, 0xBF],
+                                [0xF8, 0x80, 0x80, 0x80, 0x80], [0xF8, 0x87, 0xBF, 0xBF, 0xBF], [0xFC, 0x80, 0x80, 0x80, 0x80, 0x80], [0xFC, 0x83, 0xBF, 0xBF, 0xBF, 0xBF]]) + good[:2]
+    if k == 2:    # encoded surrogates
+        return good + r.choice([[0xED, 0xA0, 0x80], [0xED, 0xBF, 0xBF], [0xED, 0xAF, 0xBF, 0xED, 0xB0, 0x80]]) + good[:2]
+    if k == 3:    # beyond U+10FFFF: glibc decodes these
+        return good + enc31(r.choice(WIDE_WC)) + good[:2]
+    if k == 4:    # stray continuation / invalid lead bytes
+        i = r.below(len(good) + 1)
+        return good[:i] + [r.choice([0x80, 0xBF, 0xFE, 0xFF, 0xC0, 0xC1])] + good[i:]
+    if k == 5:    # a continuation byte replaced
+        if len(good) > 1:
+            i = r.below(len(good))
+            good[i] = r.choice([0x28, 0xC3, 0x7F, 0x00, 0xE2])
+        return good
+    if k == 6:    # embedded NUL in a well-formed string
+        i = r.below(len(good) + 1)
+        return good[:i] + [0] * r.range(1, 2) + good[i:]
+    if k == 7:    # NUL directly behind an incomplete sequence, completed (or not) behind the NUL
+        ch = enc31(r.choice([0xE4, 0x20AC, 0x1F600]))
+        cut = r.range(1, len(ch) - 1)
+        return good[:3] + ch[:cut] + [0] + r.choice([ch[cut:], [], [0x41], ch[cut:] + good[:2], ch])
+    if k == 8:    # one byte dropped anywhere
+        if good:
+            i = r.below(len(good)); good = good[:i] + good[i + 1:]
+        return good
+    if k == 9:
+        return [r.below(256) for _ in range(r.range(1, 8))]
+    if k == 10:   # well-formed long string with a defect at the very end / beginning
+        long = [b for c in rand_string(r, 40) for b in enc31(c)]
+        return r.choice([long + [0xC3], [0xA4] + long, long + [0xF0, 0x9F], long])
+    if k == 11:   # incomplete sequences split by several NULs
+        ch = enc31(r.choice([0x20AC, 0x1F600]))
+        out = []
+        for b in ch:
+            out += [b] + [0] * r.below(2)
+        return out
+    return good
+
+
+def malformed_wide(r):
+    good = rand_string(r, 8)
+    k = r.below(6)
+    i = r.below(len(good) + 1)
+    if k == 0:
+        return good[:i] + [r.choice(BAD_WC)] + good[i:]
+    if k == 1:
+        return good[:i] + [r.choice(WIDE_WC)] + good[i:]
+    if k == 2:    # embedded NULs: the exactly-full-window path of 5e38615
+        return good[:i] + [0] * r.range(1, 3) + good[i:]
+    if k == 3:
+        return [r.choice([0xE4, 0x20AC]), 0, r.choice([0xE4, 0x20AC, 0x41])] + good[:r.below(3)]
+    if k == 4:
+        return good + [r.choice(BAD_WC)]
+    return [r.choice(BAD_WC)] + good
+
+
+def expected_widen(bs):
+    """the property: the complete conversion or a failure"""
+    d = dec31(bs)
+    return "exc" if d is None else "some " + whx(d)
+
+
+def expected_narrow(cs):
+    bs = []
+    for c in cs:
+        e = enc31(c)
+        if e is None:
+            return "none"
+        bs += e
+    return "some " + hexs(bs)
+
+
 def nontrivial(op, result):
     return result != "bad-op" and op != "native"
 
@@ -122,6 +278,8 @@ def weight(op):
     t = op.split()
     if t[0] == "bins" or t[0] == "rtds":
         return int(t[4])
+    if t[0] == "nws":
+        return int(t[2])
     return 1
 
 
@@ -133,6 +291,9 @@ def refine(op):
     if t[0] == "rtds":
         lo, n = int(t[3]), int(t[4])
         return [f"rtd {t[1]} {t[2]} {v}" for v in range(lo, lo + n)]
+    if t[0] == "nws":
+        lo, n = int(t[1]), int(t[2])
+        return [f"nw {c:08x}" for c in range(lo, lo + n)]
     return None
 
 
@@ -284,6 +445,123 @@ def batches(rng, tier):
             text = text[:r.below(len(text) + 1)]
         ops.append(f"vin {ty} {r.choice([n, n, n, r.range(1, 4)])} {hx(text)}")
     yield Batch("vector-input-malformed", ops, note="mutated vector texts: missing/extra characters, whitespace, out-of-range elements, truncated text, wrong dimension")
+
+    # ---------------------------------------------------------------- UTF-8: narrow / widen in C.utf8
+    yield Batch("utf8-facet", ["facet"], exhaustive=True, note="max_length() = 6 and always_noconv() = false, as the model assumes")
+    ops = []
+    if thorough:
+        for lo in range(0, 0x110000, 4096):
+            ops.append(f"nws {lo} 4096")
+        note = "narrow then widen of every one-character string U+0000..U+10FFFF (surrogates included: narrow must fail)"
+    else:
+        chosen = set()
+        for e in SCALAR_EDGES + [0xD800, 0xDFFF]:
+            chosen.update(range(max(0, e - 2), min(0x10FFFF, e + 2) + 1))
+        chosen.update(range(0, 0x110000, 17))
+        ops = [f"nw {c:08x}" for c in sorted(chosen)]
+        ops += [f"nws {lo} 4096" for lo in range(0, 0x10000, 4096)]
+        note = "every 17th scalar value, all neighbours of the length/surrogate boundaries, the whole BMP as digests"
+    yield Batch("utf8-scalars", ops, exhaustive=thorough, note=note)
+    r = rng.fork("utf8")
+    ops = []
+    for _ in range(6000 if thorough else 1200):
+        ops.append("nw " + whx(rand_string(r)))
+    # every length 1..40 with characters of every encoded length: all buffer growth paths (initial size n, 2*read, max_length)
+    for n in range(1, 41):
+        for c in (0x41, 0xE4, 0x20AC, 0x1F600):
+            ops.append("nw " + whx([c] * n))
+            ops.append("nw " + whx([0x41] * (n - 1) + [c]))
+            ops.append("nw " + whx([c] + [0x41] * (n - 1)))
+    yield Batch("utf8-strings", ops, note="random strings of scalar values up to length 40 and, for every length 1..40, strings whose encoded length is n, 2n, 3n, 4n, n+1..n+3")
+    # the facet itself: contract of the abstract converter, concrete model of libstdc++/glibc
+    ops = []
+    for _ in range(5000 if thorough else 900):
+        if r.chance(1, 2):
+            cs = rand_string(r, 6) if r.chance(2, 3) else malformed_wide(r)
+            total = sum(len(enc31(c) or [0]) for c in cs)
+            ops.append(f"cvt out {r.range(0, total + 2)} - {whx(cs)}")
+        else:
+            bs = malformed_bytes(r) if r.chance(2, 3) else [b for c in rand_string(r, 6) for b in enc31(c)]
+            pend = []
+            if r.chance(1, 4):
+                ch = enc31(r.choice([0xE4, 0x20AC, 0x1F600, 0x200000, 0x4000000]))
+                pend = ch[:r.range(1, len(ch) - 1)]
+                if r.chance(2, 3):
+                    bs = ch[len(pend):] + bs
+            ops.append(f"cvt in {r.range(0, len(bs) + 1)} {hexs(pend)} {hexs(bs)}")
+    yield Batch("utf8-facet-calls", ops, note="single calls of the real codecvt<wchar_t,char,mbstate_t>::in/out of C.utf8 with every window size, primed states, well- and ill-formed input: result kind, from_next, to_next, output, mbsinit")
+    ops = []
+    for _ in range(6000 if thorough else 1200):
+        ops.append("widen " + hexs(malformed_bytes(r)))
+    for _ in range(2000 if thorough else 400):
+        ops.append("narrow " + whx(malformed_wide(r)))
+    for e in BAD_WC + WIDE_WC:
+        ops.append(f"narrow {e:08x}")
+    yield Batch("utf8-malformed", ops, note="truncated sequences, overlong forms, surrogates, values beyond U+10FFFF, stray bytes, embedded NULs: model = code; the rule 'a result is the complete conversion' is checked against an oracle by extra_checks")
+
+
+def extra_checks(binp, rng, tier, ev):
+    """The property on ill-formed input, independent of the model: whatever narrow/widen return is either the complete
+    conversion (by this file's own strict 31-bit UTF-8 coder) or a failure."""
+    from vlib.runner import run_harness
+    if binp is None:
+        return []
+    r = rng.fork("utf8-rule")
+    n = 8000 if tier == "thorough" else 1500
+    ops, want = [], []
+    for _ in range(n):
+        if r.chance(3, 4):
+            bs = malformed_bytes(r)
+            ops.append("widen " + hexs(bs)); want.append(expected_widen(bs))
+        else:
+            cs = malformed_wide(r)
+            ops.append("narrow " + whx(cs)); want.append(expected_narrow(cs))
+    for bs in ([0x61, 0xC3], [0xC3], [0x61, 0x62, 0xE2, 0x82], [0xC3, 0x00, 0xA4], [0xE2, 0x82, 0x00, 0xAC], [0xC3, 0x00]):
+        ops.append("widen " + hexs(bs)); want.append(expected_widen(bs))
+    lines, deaths = run_harness(binp, ops)
+    viol = []
+    bad = 0
+    for op, w, got in zip(ops, want, lines):
+        if got in ("NOT-RUN", "SKIPPED-AFTER-DEATH", None) or got == w:
+            continue
+        bad += 1
+        if len(viol) < 3:
+            viol.append({"kind": "input", "batch": "utf8-rule", "batch_kind": "stateless", "ops": [op], "expected": [w], "observed": [got],
+                         "what": f"{op.split()[0]} returned something that is neither the complete conversion nor a failure: {op!r} -> {got!r}, expected {w!r}"})
+    ev["coverage"]["utf8_rule"] = {"ops": len(ops), "not_complete_or_failure": bad,
+                                   "rule": "result of widen_locale/narrow_locale in C.utf8 == strict conversion by the plugin's own coder, 'exc'/'none' iff ill-formed"}
+    return viol
+
+
+def nul_after_incomplete(bs):
+    """an incomplete multi-byte sequence directly followed by a NUL byte"""
+    i = 0
+    while i < len(bs):
+        b = bs[i]
+        n = 1 if b < 0x80 else 2 if 0xC2 <= b < 0xE0 else 3 if 0xE0 <= b < 0xF0 else 4 if 0xF0 <= b < 0xF8 else 5 if 0xF8 <= b < 0xFC else 6 if 0xFC <= b < 0xFE else 1
+        k = 1
+        while k < n and i + k < len(bs) and bs[i + k] & 0xC0 == 0x80:
+            k += 1
+        if k < n and i + k < len(bs) and bs[i + k] == 0:
+            return True
+        i += k
+    return False
+
+
+def classify(violation, findings):
+    """Only 'widen accepts an incomplete sequence that is followed by a NUL byte' is the (possible) known finding."""
+    if violation.get("kind") != "input" or violation.get("batch") != "utf8-rule" or not violation.get("ops"):
+        return None
+    t = violation["ops"][-1].split()
+    if t[0] != "widen" or t[1] == "-":
+        return None
+    bs = list(bytes.fromhex(t[1]))
+    if not nul_after_incomplete(bs):
+        return None
+    for f in findings:
+        if f.get("property") == "C15" and f.get("status") != "fixed" and "embedded NUL" in (f.get("site", "") + f.get("what", "")):
+            return f
+    return None
 
 
 MANIFEST = {
